@@ -75,7 +75,7 @@ def csvfile_runner(case):
 
     def run(q):
         warns = []
-        q = q.replace('@B', b)
+        q = q.replace('JOINFILE_7f3a', b) if case.get('join_records') is not None else q
         rbql.query_csv(q, a, ',', 'quoted_rfc', o, ',', 'quoted_rfc', 'utf-8', warns, case['flag'])
         with open(o, encoding='utf-8', newline='') as f:
             it = rbql_csv.CSVRecordIterator(f, None, ',', 'quoted_rfc')
